@@ -397,6 +397,16 @@ def coq_cfg(v):
 SGML_IMPORTS = ["Base.SgmlBase", "Model.Sgml", "Model.SgmlCases"]
 
 
+def coq_bad(prop, name, imports, ok, ty, items, shard):
+    """C.coq_bad_indices in a directory of this process's own (two concurrent runs of one check must not share case files)"""
+    import shutil
+    own = "%s-%d" % (name, os.getpid())
+    try:
+        return C.coq_bad_indices(prop, own, imports, ok, ty, items, shard=shard)
+    finally:
+        shutil.rmtree(os.path.join(C.BUILD, "cases", prop, own), ignore_errors=True)
+
+
 def correspond(rep, name, variant, texts, P, with_matches=False, shard=1500, what=None):
     """model (vm_compute) vs TreeBuilder on the given texts; appends disagreements; returns the implementation outcomes"""
     seen, uniq = set(), []
@@ -410,7 +420,7 @@ def correspond(rep, name, variant, texts, P, with_matches=False, shard=1500, wha
     else:
         items = [coq_pcase(s, o) for s, o in zip(uniq, outs)]
         ok, ty = "pcase_ok %s" % coq_cfg(variant), "pcase"
-    bad = C.coq_bad_indices(rep.prop, name, SGML_IMPORTS, ok, ty, items, shard=shard)
+    bad = coq_bad(rep.prop, name, SGML_IMPORTS, ok, ty, items, shard)
     for i in bad[:40]:
         rep.disagreements.append({"run": name, "text": uniq[i], "implementation": outs[i],
                                   "matches": impl_matches(P, uniq[i]) if with_matches else None})
@@ -701,8 +711,8 @@ def run_serialize(rep, tier, rng):
             rep.count(("ser", mode, t), nontrivial=(out[0] == "ok" and len(t[3]) > 0), kind="serialize:mode%d" % mode)
     rep.sample({"serialize_mode": kept[7][0], "tree": kept[7][1], "implementation": repr(kept[7][2])})
     he = C.clist([C.ctext(x) for x in sorted(ET.HTML_EMPTY)])
-    bad = C.coq_bad_indices(rep.prop, "serialize", ["Base.SgmlBase", "Model.Serialize", "Model.SerializeCases"],
-                            "sercase_ok %s %s" % (he, C.cbool(esc)), "sercase", items, shard=300)
+    bad = coq_bad(rep.prop, "serialize", ["Base.SgmlBase", "Model.Serialize", "Model.SerializeCases"],
+                  "sercase_ok %s %s" % (he, C.cbool(esc)), "sercase", items, 300)
     for i in bad[:20]:
         rep.disagreements.append({"run": "serialize", "mode": kept[i][0], "tree": kept[i][1], "implementation": repr(kept[i][2])})
 
